@@ -44,7 +44,7 @@ META = {
         "filter / order / direction are set through the command methods (set_filter_cmd, set_order, set_reversed), not "
         "through the view_* options; focus_follow stays off",
         "flows are built with live=False so that remove() does not kill them (kill rewrites flow.error)",
-        "scopes: the 'full' scope uses every operation (3 flows quick, 4 thorough) at depth 5; the 'order' scope starts with "
+        "scopes: the 'full' scope uses every operation (3 flows at depth 4 quick, 4 flows at depth 5 thorough); the 'order' scope starts with "
         "two HTTP flows already stored and uses only the operations that touch ordering, at a larger depth",
         "feature edited_out_of_sight (used only to tell the known stale-key finding from other ordering defects): a flow's "
         "key for the selected order was changed by an edit while the flow was not shown under that order before and after "
@@ -519,8 +519,8 @@ class Spec:
 
 def run(ctx):
     full = FULL_THOROUGH if ctx.thorough else FULL_QUICK
-    full_depth = 5
-    order_depth = ctx.pick(6, 8)
+    full_depth = ctx.pick(4, 5)
+    order_depth = ctx.pick(6, 7)
     ctx.bounds = {
         "filters": FILTERS, "orders": ORDERS, "editable_fields": {n: {k: list(v) for k, v in d.items()} for n, d in FIELDS.items()},
         "full": dict(full, depth=full_depth),
